@@ -58,6 +58,12 @@ def cases(tier, inst):
     for ms in P.stream_multisets(inst, 3, 2, cps=(1, 2), dts=(1,), iso=False, min_n=2):
         yield {"streams": ms, "zones": ["S1/A", "S1/B"], "uset": 0, "flags": [True, False, False], "inst": list(inst), "tree": "community"}
         yield {"streams": ms, "zones": ["A/X", "B/X"], "uset": 0, "flags": [True, False, False], "inst": list(inst)}
+    # problems of realistic size (6-18 streams): curves with many rows, pockets and segments
+    for ms in P.crowds(inst, 3, dts=(1,)):
+        for ui in (0, 1):
+            for fl in ((True, False, False), (False, True, True)):
+                yield {"streams": ms, "zones": ["A"] * len(ms), "uset": ui, "flags": list(fl), "inst": list(inst)}
+        yield {"streams": ms, "zones": [["A", "B"][i % 2] for i in range(len(ms))], "uset": 1, "flags": [True, True, False], "inst": list(inst)}
     for g in gens:
         for ms in g:
             n = len(ms)
@@ -266,7 +272,7 @@ SUBCHECKS = {
         describe="pinch_analysis_service x graph options: every emitted series vs the table slice stored on its target; graph-set bookkeeping and documented graph types",
         rule="case = (streams, zones, utility set, balanced/vertical/assisted flags); non-trivial = some record has >=3 series with >=2 points each; outcomes = distinct graph-set summaries",
         cases=cases, run=run,
-        bound=lambda t: "multisets <=2 (18 types) x <=2 zones x 2 utility sets x 8 flag assignments + 3-multisets (6 types) x 2 flag assignments + tiny-duty family" if t == "quick"
+        bound=lambda t: "multisets <=2 (18 types) x <=2 zones x 2 utility sets x 8 flag assignments + 3-multisets (6 types) x 2 flag assignments + tiny-duty family + 7 problems of 6-18 streams x 5 settings" if t == "quick"
         else "multisets <=3 (18 types) x <=2 zones x 2 utility sets x 8 flag assignments",
     ),
 }
